@@ -2,14 +2,15 @@
 //! Reuses the deterministic Swarm rig of h_swarm (scripted transport / muxer / probe behaviour).
 #[path = "../../h_swarm/src/sim.rs"]
 mod sim;
+mod c58;
 
 fn main() {
     let args = hcore::Args::parse();
     hcore::quiet_panics();
     let mut out = hcore::Out::new();
     match args.prop.as_str() {
+        "C58" => c58::run(&args, &mut out),
         p => {
-            let _ = &mut out;
             eprintln!("h_sw_e: unknown property {p}");
             std::process::exit(2);
         }
